@@ -226,6 +226,17 @@ class TermInterp:
             if isinstance(base, dict) and isinstance(node.slice, ast.Constant):
                 return base[node.slice.value]
             raise Unsupported(f"subscript {norm(node)}")
+        if isinstance(node, (ast.ListComp, ast.GeneratorExp)) and len(node.generators) == 1 and not node.generators[0].ifs:
+            # a comprehension over a finite sequence of terms: one term per item
+            g = node.generators[0]
+            seq = self.ev(g.iter, env)
+            if isinstance(seq, (tuple, list)):
+                out = []
+                for item in seq:
+                    e2 = dict(env)
+                    self._assign(g.target, item, e2)
+                    out.append(self.ev(node.elt, e2))
+                return out if isinstance(node, ast.ListComp) else tuple(out)
         raise Unsupported(f"expression {type(node).__name__}: {norm(node)[:80]}")
 
     def call(self, node: ast.Call, env):
@@ -265,6 +276,8 @@ class TermInterp:
             return args[0] + I * args[1]
         if isinstance(f, ast.Name) and name in ("float", "ComplexImpedance", "complex128", "float64", "array"):
             return args[0]
+        if isinstance(f, ast.Name) and name in ("tuple", "list") and len(args) == 1 and isinstance(args[0], (tuple, list)) and not kwargs:
+            return tuple(args[0]) if name == "tuple" else list(args[0])
         raise Unsupported(f"call to {norm(f)} at line {node.lineno}")
 
     # -- statements ----------------------------------------------------------
@@ -295,15 +308,17 @@ class TermInterp:
                     i += 1
                     continue
                 raise Unsupported(f"expression statement {norm(s)[:60]}")
-            if isinstance(s, ast.AnnAssign):
-                if s.value is not None:
-                    self._assign(s.target, self.ev(s.value, env), env)
+            if isinstance(s, (ast.AnnAssign, ast.Assign)) and s.value is not None:
+                try:
+                    v = self.ev(s.value, env)
+                except InlinedRaise as ir:  # a helper inlined in the value raises on this path
+                    out.append(Path(list(conds), "raise", ir.name, dict(env)))
+                    return
+                for t in ([s.target] if isinstance(s, ast.AnnAssign) else s.targets):
+                    self._assign(t, v, env)
                 i += 1
                 continue
-            if isinstance(s, ast.Assign):
-                v = self.ev(s.value, env)
-                for t in s.targets:
-                    self._assign(t, v, env)
+            if isinstance(s, ast.AnnAssign):
                 i += 1
                 continue
             if isinstance(s, ast.AugAssign):
